@@ -143,8 +143,15 @@ def op_counter_replay(job):
     for hist in job['histories']:
         c = PrimitiveConstrainedCounter(job['bound'])
         for v in hist:
+            if job.get('probe'):
+                # a caller watching running counts: looking a value up (seen or not yet seen) is not feeding it
+                for q in (v, 'never-added-' + str(len(hist))):
+                    try:
+                        c.default_counter[q]
+                    except KeyError:
+                        pass
             c.add(v)
-        out.append({str(k): int(v) for k, v in c.default_counter.items()})
+        out.append({str(k): int(v) for k, v in c.default_counter.items() if not job.get('probe') or int(v) > 0})
     return out
 
 
